@@ -1,11 +1,21 @@
 //@ unit prec_tokens
 //@ serves C02
-//@ must_verify dot_op_type
+//@ must_verify dot_op_type math_op_type bool_op_type compare_op_type parse_operand_list token_clone lemma_op_spellings lemma_classes_cover
 //@ include prelude/head.rs
 use std::rc::Rc;
 use vstd::std_specs::cmp::{PartialEqSpec, PartialEqSpecImpl};
 
-// The ucg macros `use` these paths; in the one-file crate they name the items extracted below.
+// What units/prec.unit.rs assumes and this unit discharges:
+//   (1) parse_operand_list returns an alternating list  Expr (Op Expr)*   (`wf`, same text as in prec.unit.rs),
+//   (2) every Op of that list is the BinaryExprType the language reference gives for the operator TOKEN that stood
+//       between the two operands.
+// Everything executable below is extracted: the four make_fn! recognisers (R10: one macro layer), the
+// abortable_parser macros either!/do_each!/run! and the ucg macros punct!/word!/match_token! VERBATIM, token_clone,
+// parse_operand_list. Hand-written: the oracle (operator spelling -> variant, from the reference), the layout
+// predicate, the stub of non_op_expression.
+
+// The ucg macros `use crate::tokenizer::token_clone`, `use abortable_parser::Result`: in the one-file crate these
+// paths name the items extracted below (no token of the macros is changed for it).
 mod tokenizer { pub use crate::token_clone; }
 mod abortable_parser { pub use crate::{Error, Result}; }
 
@@ -27,6 +37,7 @@ verus! {
 //@ include prelude/core.rs
 //@ include prelude/ap_slice.rs
 
+// operands and positions are only moved around here (R5)
 //@ opaque Expression Position
 
 // Error<C> stays opaque (prelude/ap_slice.rs, R5); the second constructor the ucg macros use.
@@ -45,11 +56,10 @@ pub assume_specification<'a, 'b> [<Rc<str> as From<&'a str>>::from] (s: &'b str)
 //@ extract src/parse/precedence.rs :: enum Element
 //@   rule R0
 //@ end
-//@ extract src/ast/mod.rs :: enum TokenType
-//@   rule R0
-//@ end
-//@ extract src/ast/mod.rs :: struct Token
-//@   rule R0
+// Token, TokenType; the oracle tok_op (operator spelling -> operator, from the language reference); operand_at,
+// operand_fails, elem_at, layout - shared with units/prec.unit.rs
+//@ include prelude/prec_tokens_spec.rs
+//@ extract src/parse/mod.rs :: type ParseResult
 //@ end
 //@ clone_spec Token
 // R0: `#[derive(PartialEq)]` on TokenType (a field-less enum) is assumed structural.
@@ -69,8 +79,162 @@ impl PartialEq for TokenType {
 //@   >>>
 //@ end
 
+// operator classes: the same predicates as in units/prec.unit.rs (is_compare_op is written out here)
+pub open spec fn is_bool_op(o: BinaryExprType) -> bool { o is AND || o is OR }
+pub open spec fn is_dot_op(o: BinaryExprType) -> bool { o is DOT }
+pub open spec fn is_math_op(o: BinaryExprType) -> bool { o is Add || o is Sub || o is Mul || o is Div || o is Mod }
+pub open spec fn is_compare_op(o: BinaryExprType) -> bool {
+    o is Equal || o is NotEqual || o is REMatch || o is NotREMatch || o is LTEqual || o is GTEqual || o is LT || o is GT
+    || o is IN || o is IS
+}
+proof fn lemma_classes_cover(o: BinaryExprType)
+    ensures is_dot_op(o) || is_math_op(o) || is_compare_op(o) || is_bool_op(o),
+        is_compare_op(o) == (!is_bool_op(o) && !is_dot_op(o) && !is_math_op(o)),
+{ }
+
+// the 18 spellings, character by character (so that they are pairwise different strings)
+pub open spec fn is1(s: Seq<char>, a: char) -> bool { s.len() == 1 && s[0] == a }
+pub open spec fn is2(s: Seq<char>, a: char, b: char) -> bool { s.len() == 2 && s[0] == a && s[1] == b }
+pub proof fn lemma_op_spellings()
+    ensures
+        is1("."@, '.'), is1("+"@, '+'), is1("-"@, '-'), is1("*"@, '*'), is1("/"@, '/'),
+        is2("%%"@, '%', '%'), is2("&&"@, '&', '&'), is2("||"@, '|', '|'),
+        is2("=="@, '=', '='), is2("!="@, '!', '='), is1("~"@, '~'), is2("!~"@, '!', '~'),
+        is2("<="@, '<', '='), is2(">="@, '>', '='), is1("<"@, '<'), is1(">"@, '>'),
+        is2("in"@, 'i', 'n'), is2("is"@, 'i', 's'),
+{
+    reveal_strlit("."); reveal_strlit("+"); reveal_strlit("-"); reveal_strlit("*"); reveal_strlit("/");
+    reveal_strlit("%%"); reveal_strlit("&&"); reveal_strlit("||");
+    reveal_strlit("=="); reveal_strlit("!="); reveal_strlit("~"); reveal_strlit("!~");
+    reveal_strlit("<="); reveal_strlit(">="); reveal_strlit("<"); reveal_strlit(">");
+    reveal_strlit("in"); reveal_strlit("is");
+}
+
+pub open spec fn takes_tok<'a>(i: SliceIter<'a, Token>, r: Result<SliceIter<'a, Token>, Element>, o: BinaryExprType) -> bool {
+    r matches Result::Complete(rest, el) && rest.source == i.source && rest.offset == i.offset + 1 && el == Element::Op(o)
+}
+
+// make_fn!(X_op_type<SliceIter<Token>, Element>, either!(do_each!(_ => punct!(..), (Element::Op(..))), ..)) (R10)
 //@ extract src/parse/precedence.rs :: make_fn dot_op_type
 //@   ret r
+//@   sig <<<
+    ensures
+        (cur_tok_op(i) matches Some(o) && is_dot_op(o)) ==> takes_tok(i, r, cur_tok_op(i)->Some_0),
+        !(cur_tok_op(i) matches Some(o) && is_dot_op(o)) ==> r is Fail,
+//@   >>>
+//@   body_start <<<
+    proof { lemma_op_spellings(); }
+//@   >>>
+//@ end
+
+//@ extract src/parse/precedence.rs :: make_fn math_op_type
+//@   ret r
+//@   sig <<<
+    ensures
+        (cur_tok_op(i) matches Some(o) && is_math_op(o)) ==> takes_tok(i, r, cur_tok_op(i)->Some_0),
+        !(cur_tok_op(i) matches Some(o) && is_math_op(o)) ==> r is Fail,
+//@   >>>
+//@   body_start <<<
+    proof { lemma_op_spellings(); }
+//@   >>>
+//@   mutant mod_as_mul "punct!(\"%%\"), (Element::Op(BinaryExprType::Mod))" => "punct!(\"%%\"), (Element::Op(BinaryExprType::Mul))" expect math_op_type
+//@   mutant math_drop_sub "do_each!( _ => punct!(\"-\"), (Element::Op(BinaryExprType::Sub)))," => "" expect math_op_type
+//@ end
+
+//@ extract src/parse/precedence.rs :: make_fn bool_op_type
+//@   ret r
+//@   sig <<<
+    ensures
+        (cur_tok_op(i) matches Some(o) && is_bool_op(o)) ==> takes_tok(i, r, cur_tok_op(i)->Some_0),
+        !(cur_tok_op(i) matches Some(o) && is_bool_op(o)) ==> r is Fail,
+//@   >>>
+//@   body_start <<<
+    proof { lemma_op_spellings(); }
+//@   >>>
+//@ end
+
+//@ extract src/parse/precedence.rs :: make_fn compare_op_type
+//@   ret r
+//@   sig <<<
+    ensures
+        (cur_tok_op(i) matches Some(o) && is_compare_op(o)) ==> takes_tok(i, r, cur_tok_op(i)->Some_0),
+        !(cur_tok_op(i) matches Some(o) && is_compare_op(o)) ==> r is Fail,
+//@   >>>
+//@   body_start <<<
+    proof { lemma_op_spellings(); }
+//@   >>>
+//@   mutant lt_gt_swapped "punct!(\"<\"), (Element::Op(BinaryExprType::LT))), do_each!(_ => punct!(\">\"), (Element::Op(BinaryExprType::GT)))" => "punct!(\">\"), (Element::Op(BinaryExprType::LT))), do_each!(_ => punct!(\"<\"), (Element::Op(BinaryExprType::GT)))" expect compare_op_type
+//@   mutant in_is_swapped "word!(\"in\"), (Element::Op(BinaryExprType::IN))), do_each!(_ => word!(\"is\"), (Element::Op(BinaryExprType::IS)))" => "word!(\"is\"), (Element::Op(BinaryExprType::IN))), do_each!(_ => word!(\"in\"), (Element::Op(BinaryExprType::IS)))" expect compare_op_type
+//@   mutant cmp_drop_notrematch "do_each!(_ => punct!(\"!~\"), (Element::Op(BinaryExprType::NotREMatch)))," => "" expect compare_op_type
+//@   mutant in_as_punct "word!(\"in\")" => "punct!(\"in\")" expect compare_op_type
+//@ end
+
+// ---------- the operand list ----------
+// same text as in units/prec.unit.rs
+pub open spec fn wf(s: Seq<Element>) -> bool {
+    s.len() % 2 == 1
+    && (forall|k: int| 0 <= k < s.len() && k % 2 == 0 ==> s[k] is Expr)
+    && (forall|k: int| 0 <= k < s.len() && k % 2 == 1 ==> s[k] is Op)
+}
+
+// non_op_expression (src/parse/mod.rs: the whole expression grammar below the operator level) is OUTSIDE this unit
+// (R8). ASSUMED only: a Complete result is over the same token slice and consumed at least one token.
+// operand_at / operand_fails (prelude/prec_tokens_spec.rs) are uninterpreted NAMES for "may return e for the tokens
+// from..to" / "may fail at from": nothing is assumed about which expression comes back, nor determinism.
+#[verifier::external_body]
+fn non_op_expression<'a>(i: SliceIter<'a, Token>) -> (r: Result<SliceIter<'a, Token>, Expression>)
+    ensures
+        r matches Result::Complete(rest, e) ==> rest.source == i.source && i.offset < rest.offset <= i.source@.len()
+            && operand_at(i.source@, i.offset as int, rest.offset as int, e),
+        r is Fail ==> operand_fails(i.source@, i.offset as int),
+{ unimplemented!() }
+
+//@ extract src/parse/precedence.rs :: fn parse_operand_list
+//   type annotation only (the invariants mention `list@` before rustc has inferred the element type)
+//@   subst "let mut list = Vec::new();" => "let mut list: Vec<Element> = Vec::new();"
+//@   ret r
+//@   sig <<<
+    ensures
+        r matches Result::Complete(rest, list) ==> ({
+            let src = i.source@;
+            &&& wf(list@)
+            &&& rest.source == i.source && i.offset < rest.offset <= src.len()
+            &&& exists|st: Seq<int>| layout(src, list@, st, i.offset as int, rest.offset as int)
+            // the list is not cut short: what follows the last operand is not an operator
+            &&& cur_tok_op(rest) is None
+        }),
+        // Fail only if the very FIRST operand fails; a missing operand after an operator is an Abort
+        r is Fail ==> operand_fails(i.source@, i.offset as int),
+//@   >>>
+//@   body_start <<<
+    let ghost src = i.source@;
+    let ghost mut st: Seq<int> = seq![i.offset as int];   // st[k]: first token of list[k]; st.last(): of the next operand
+//@   >>>
+//@   loop 1 <<<
+        invariant_except_break
+            firstrun == (list@.len() == 0),
+            list@.len() % 2 == 0,
+            layout(src, list@, st, i.offset as int, _i.offset as int),
+        invariant
+            _i.source == i.source, src == i.source@,
+            i.offset <= _i.offset,
+            _i.offset <= src.len() || _i.offset == i.offset,
+        ensures
+            _i.source == i.source,
+            i.offset < _i.offset <= src.len(),
+            list@.len() % 2 == 1,
+            layout(src, list@, st.push(_i.offset as int), i.offset as int, _i.offset as int),
+            cur_tok_op(_i) is None,
+        decreases src.len() - _i.offset
+//@   >>>
+//@   loop_body_end 1 <<<
+        proof { st = st.push(_i.offset as int - 1).push(_i.offset as int); }
+//@   >>>
+//@   mutant list_order_swapped "list.push(el);" => "let prev = list.pop().unwrap(); list.push(el); list.push(prev);" expect parse_operand_list
+//@   mutant missing_operand_break "let err = Error::new(\"Missing operand for binary expression\", Box::new(_i)); return Result::Abort(err);" => "break;" expect parse_operand_list
+//@   mutant missing_operand_fail "return Result::Abort(err);" => "return Result::Fail(err);" expect parse_operand_list
+//@   mutant bool_ops_not_tried "compare_op_type, bool_op_type" => "compare_op_type" expect parse_operand_list
+//@   mutant operator_not_consumed "list.push(el); _i = rest.clone();" => "list.push(el);" expect parse_operand_list
 //@ end
 
 } // verus!
